@@ -16,7 +16,18 @@ _A = None
 _INTERESTING = {}
 FILES = None
 
-VALUES = {'n': None, 'z': 0, 'e': '', 'f': False, 'l': [], 'a': 'a', 'b': 'b', 'o': 1, 't': (1, 2)}
+class MatchAll:
+    """an element that compares equal to everything (a "match anything" placeholder such as unittest.mock.ANY)"""
+    def __eq__(self, other):
+        return True
+
+    def __ne__(self, other):
+        return False
+
+    __hash__ = None
+
+
+VALUES = {'n': None, 'z': 0, 'e': '', 'f': False, 'l': [], 'a': 'a', 'b': 'b', 'o': 1, 't': (1, 2), 'w': MatchAll()}
 
 
 def worker_init():
@@ -167,6 +178,17 @@ def execute(sc):
                 async for x in A.to_async_iter(make_sync_source()):
                     check(j, x)
                     j += 1
+                    if sc.get('twin') and j == 1:
+                        # a second, independent bridge opened and consumed while the first is in mid-iteration
+                        tw = []
+                        try:
+                            async for y in A.to_async_iter(iter(['p', 'q'])):
+                                tw.append(y)
+                        except BaseException as e:
+                            if isinstance(e, rt.Hang):
+                                raise
+                            tw.append(type(e).__name__)
+                        ctl.log('Twin', ok=tw == ['p', 'q'])
                     if sc.get('consume_delay', 0) > 0:
                         await asyncio.sleep(sc['consume_delay'])
             except SrcError as e:
@@ -200,6 +222,17 @@ def execute(sc):
             for x in (A.to_sync_iter(agen(), loop=own) if own is not None else A.to_sync_iter(agen())):
                 check(j, x)
                 j += 1
+                if sc.get('twin') and j == 1:
+                    async def small():
+                        yield 'p'
+                        yield 'q'
+                    try:
+                        tw = list(A.to_sync_iter(small()))
+                    except BaseException as e:
+                        if isinstance(e, rt.Hang):
+                            raise
+                        tw = [type(e).__name__]
+                    ctl.log('Twin', ok=tw == ['p', 'q'])
                 if sc.get('consume_delay', 0) > 0:
                     ctl.sleep(sc['consume_delay'])
         except SrcError as e:
